@@ -55,10 +55,23 @@ func c14Run(u *vfUnit) {
 		if kind == vfRS {
 			store = vfNewStore()
 			cfg.H = store.Handlers(vfHandlerOpt{OpenFile: bi%2 == 0})
+			// "for all relative speeds": in a few bursts one handler call takes seconds, not microseconds
+			// (a wait with a built-in patience of a second or three would give up on it)
+			verySlow := u.Index%8 == 3 && bi == 1
+			if verySlow {
+				u.Count("bursts_with_a_call_of_several_seconds", 1)
+			}
 			store.Delay = func(write bool, off int64) {
 				dmu.Lock()
 				d := rr.Intn(2000)
+				slow := verySlow && write && off == 0
+				if slow {
+					verySlow = false
+				}
 				dmu.Unlock()
+				if slow {
+					time.Sleep(4200 * time.Millisecond)
+				}
 				if d > 300 {
 					time.Sleep(time.Duration(d) * time.Microsecond)
 				}
@@ -173,6 +186,11 @@ func c14Run(u *vfUnit) {
 					id++
 					perHandle[h] = append(perHandle[h], vfPkt{Type: rfRead, ID: id, Handle: handles[h], Off: 0, Len: 16})
 				}
+				if w%7 == 4 {
+					// an attribute change through the handle in the middle of the pipeline (chmod: the content stays)
+					id++
+					perHandle[h] = append(perHandle[h], vfPkt{Type: rfFsetstat, ID: id, Handle: handles[h], Attrs: vfAttrs{Flags: rfAttrPerm, Perm: 0o640}})
+				}
 				if w%5 == 2 {
 					// a size query on the handle in the middle of the pipeline (served by another worker than the reads and writes)
 					id++
@@ -261,7 +279,7 @@ func c14Run(u *vfUnit) {
 			}
 			ok := false
 			switch req.Type {
-			case rfWrite, rfClose:
+			case rfWrite, rfClose, rfFsetstat:
 				ok = p.Type == rfStatus && p.Code == rfOK
 				if failID[req.ID] {
 					ok = p.Type == rfStatus && p.Code != rfOK
